@@ -31,36 +31,58 @@ def width(m, inst):
     return 2 + inst % 2 if m == "mtenet" else 2 if m in ("pca", "ica", "pls") else 1
 
 
+WIDE = ["ols", "enet", "mtenet", "svr", "tweedie", "pca", "pls", "ica"]   # types whose harness fit takes the feature count from the case
+
+
 def random_cases(ctx, per_model, maxlen=64, npool=12):
     """Seeded larger batches of the same schema: pool of `npool` random quarter-unit rows (some duplicated),
-    batches of up to `maxlen` ids, a random selection of store x form x layout calls."""
+    batches of up to `maxlen` ids, a random selection of store x form x layout calls, the batch permuted and halved.
+    Regression / projection types also get wider records (5 or 9 features: unrolled dot-product kernels)."""
     r = ctx.rng
     out = []
+
+    def prog_for(ids, views, row1):
+        prog = [{"st": "own", "fm": "ref_arr", "ly": "c", "ids": [i]} for i in sorted(set(ids))]
+        for _ in range(8):
+            prog.append({"st": r.choice(["own", "view"] if views else ["own"]), "fm": r.choice(FORMS),
+                         "ly": r.choice(LAYOUTS), "ids": ids})
+        perm = list(ids)
+        r.shuffle(perm)
+        prog.append({"st": "own", "fm": "ref_arr", "ly": r.choice(LAYOUTS), "ids": perm})
+        prog.append({"st": "own", "fm": "own_ds", "ly": r.choice(LAYOUTS), "ids": ids[: len(ids) // 2]})
+        if row1:
+            prog.append({"st": "view", "fm": "row1", "ly": r.choice(["c", "cs"]), "ids": ids})
+        return prog
+
+    def pool_for(nf, nonneg):
+        lo = 0 if nonneg else -4
+        pool = [[r.randint(lo, 13) for _ in range(nf)] for _ in range(npool)]
+        for _ in range(2):
+            pool[r.randrange(npool)] = list(pool[r.randrange(npool)])
+        return pool
+
+    def ids_for():
+        n = r.choice([0, 1, 2, 5, 17, r.randint(3, maxlen), r.randint(3, maxlen)])
+        return [r.randint(1, npool) for _ in range(n)]
+
     for m in BASE:
-        nf, ot, views, row1, nonneg = INFO[m]
+        nf0, ot, views, row1, nonneg = INFO[m]
         for _ in range(per_model):
             inst = r.randint(1, 3)
-            lo = 0 if nonneg else -4
-            pool = [[r.randint(lo, 13) for _ in range(nf)] for _ in range(npool)]
-            for _ in range(2):
-                pool[r.randrange(npool)] = list(pool[r.randrange(npool)])
-            n = r.choice([0, 1, 2, 5, 17, r.randint(3, maxlen), r.randint(3, maxlen)])
-            ids = [r.randint(1, npool) for _ in range(n)]
-            prog = [{"st": "own", "fm": "ref_arr", "ly": "c", "ids": [i]} for i in sorted(set(ids))]
-            for _ in range(8):
-                prog.append({"st": r.choice(["own", "view"] if views else ["own"]), "fm": r.choice(FORMS),
-                             "ly": r.choice(LAYOUTS), "ids": ids})
-            # the same rows in another order and as a sub-batch
-            perm = list(ids)
-            r.shuffle(perm)
-            prog.append({"st": "own", "fm": "ref_arr", "ly": r.choice(LAYOUTS), "ids": perm})
-            prog.append({"st": "own", "fm": "own_ds", "ly": r.choice(LAYOUTS), "ids": ids[: len(ids) // 2]})
-            if row1:
-                prog.append({"st": "view", "fm": "row1", "ly": "c", "ids": ids})
+            nf = r.choice([nf0, 5, 9]) if m in WIDE else nf0
             out.append({"kind": "platt" if m == "svp" else "plain",
                         "inp": {"model": m, "inst": inst, "ft": "f64", "ot": ot, "mot": "fx", "nf": nf, "w": width(m, inst),
-                                "nm": 1 if m == "svp" else 0, "mem": "self", "labels": [], "tab": [], "pool": pool,
-                                "prog": prog}})
+                                "nm": 1 if m == "svp" else 0, "mem": "self", "labels": [], "tab": [],
+                                "pool": pool_for(nf, nonneg), "prog": prog_for(ids_for(), views, row1)}})
+    for _ in range(per_model):
+        inst = r.randint(1, 3)
+        for kind, mem, nm, ot, mot, labels in [("mt", "real", 3, "fx", "fx", []), ("mt", "tree", 2, "lab", "lab", []),
+                                               ("mc", "real", 3, "lab", "fx", [5, 6, 7]),
+                                               ("platt", r.choice(["ols", "svr", "enet", "mock"]), 1, "fx", "fx", [])]:
+            out.append({"kind": kind,
+                        "inp": {"model": kind, "inst": inst, "ft": "f64", "ot": ot, "mot": mot, "nf": 2,
+                                "w": nm if kind == "mt" else 1, "nm": nm, "mem": mem, "labels": labels, "tab": [],
+                                "pool": pool_for(2, False), "prog": prog_for(ids_for(), 0, 0)}})
     return out
 
 
@@ -108,7 +130,8 @@ def run(ctx):
     ctx.assumptions = ["float outputs are compared at 1e-6 absolute (f32: 2e-4) against the first value recorded for the row",
                        "training data are deterministic functions of (type, instance); the fitted model is a black box",
                        "Platt parameters are read from the model's Debug / serde rendering",
-                       "query rows stay inside the training range; exact score ties between classes are not generated"]
+                       "query rows stay inside the training range; an exact score tie between classes is generated only for "
+                       "instance 4 of the two naive-Bayes types (mirror-image classes), where the statement still demands one label per sample"]
     return vlib.finish(ctx)
 
 
